@@ -247,8 +247,8 @@ def gen_specs_extra(rng, tier):
                 d = [0.0, 0.0, 0.0]; d[ax] = sgn * (1.0 if d_out else -1.0)
                 prims.append((3, E, pos, d, 0))
             specs.append(dict(problem="P2", cutmode=0, ecut=1000.0, seed=rng.randrange(1, 10 ** 6),
-                              slots=rng.choice([4, 16]), capacity=4096, stack=1.0, kill_at=-1, max_iters=400,
-                              track_order=order, fixed_limit=0.25, prims=prims))
+                              slots=rng.choice([4, 16]), capacity=4096, stack=1.0, kill_at=-1, max_iters=4000,
+                              track_order=order, fixed_limit=0.25, prims=prims))   # <= ~400 limiter steps per track across the world
         # ---- P4: Urban MSC, electrons/positrons slowing down below the MSC table
         for order in (0, 1, rng.choice([3, 5, 6])):
             prims = []
